@@ -18,6 +18,21 @@ pub enum SeedKind {
     NoDrop,
     /// seed whose destructor panics
     PanickingDrop,
+    /// 520-byte seed with a destructor
+    BigDrop,
+    /// 1 KiB seed whose destructor panics
+    BigPanickingDrop,
+    /// 4 KiB seed without drop glue
+    BigNoDrop,
+}
+
+impl SeedKind {
+    fn panicking(self) -> bool {
+        matches!(self, SeedKind::PanickingDrop | SeedKind::BigPanickingDrop)
+    }
+    fn has_drop(self) -> bool {
+        !matches!(self, SeedKind::NoDrop | SeedKind::BigNoDrop)
+    }
 }
 
 #[derive(Debug, Clone, Copy, Serialize, Deserialize, PartialEq, Eq)]
@@ -109,6 +124,72 @@ impl Drop for SeedP {
         if !std::thread::panicking() {
             panic!("seed destructor panics");
         }
+    }
+}
+
+struct SeedDB {
+    inner: SeedD,
+    pad: [u64; 64],
+}
+impl SeedT for SeedDB {
+    fn new() -> Self {
+        SeedDB { inner: SeedD::new(), pad: [0xA5A5_A5A5_A5A5_A5A5; 64] }
+    }
+    fn log(&self) -> Vec<u8> {
+        // the padding travels with the seed: a corrupted copy shows up as a log mismatch
+        if self.pad.iter().any(|w| *w != 0xA5A5_A5A5_A5A5_A5A5) {
+            return vec![255, 255, 255];
+        }
+        self.inner.log()
+    }
+    fn push(&mut self, b: u8) {
+        self.inner.push(b)
+    }
+    fn token(&self) -> Option<u64> {
+        self.inner.token()
+    }
+}
+struct SeedPB {
+    inner: SeedP,
+    pad: [u64; 126],
+}
+impl SeedT for SeedPB {
+    fn new() -> Self {
+        SeedPB { inner: SeedP::new(), pad: [0x5A5A_5A5A_5A5A_5A5A; 126] }
+    }
+    fn log(&self) -> Vec<u8> {
+        if self.pad.iter().any(|w| *w != 0x5A5A_5A5A_5A5A_5A5A) {
+            return vec![255, 255, 255];
+        }
+        self.inner.log()
+    }
+    fn push(&mut self, b: u8) {
+        self.inner.push(b)
+    }
+    fn token(&self) -> Option<u64> {
+        self.inner.token()
+    }
+}
+#[derive(Clone, Copy)]
+struct SeedNB {
+    inner: SeedN,
+    pad: [u8; 4064],
+}
+impl SeedT for SeedNB {
+    fn new() -> Self {
+        SeedNB { inner: SeedN::new(), pad: [0x3C; 4064] }
+    }
+    fn log(&self) -> Vec<u8> {
+        if self.pad.iter().any(|w| *w != 0x3C) {
+            return vec![255, 255, 255];
+        }
+        self.inner.log()
+    }
+    fn push(&mut self, b: u8) {
+        self.inner.push(b)
+    }
+    fn token(&self) -> Option<u64> {
+        None
     }
 }
 
@@ -340,7 +421,7 @@ fn run_generic<S: SeedT>(c: &Case, out: &mut Outcome) {
     }
     // ledger: exactly one of seed / value alive
     let seed_tok = *seed_token.lock().unwrap();
-    if c.seed != SeedKind::NoDrop {
+    if c.seed.has_drop() {
         if let Some(st) = seed_tok {
             let seed_alive = ledger::is_alive(st);
             if successes == 0 && !seed_alive {
@@ -361,7 +442,7 @@ fn run_generic<S: SeedT>(c: &Case, out: &mut Outcome) {
     }
     // drop the cell: everything must be dropped exactly once
     let dropped = catch_unwind(AssertUnwindSafe(|| drop(cell)));
-    if dropped.is_err() && !(c.seed == SeedKind::PanickingDrop && successes == 0) {
+    if dropped.is_err() && !(c.seed.panicking() && successes == 0) {
         out.fail("drop-panicked", "dropping the cell panicked");
     }
     if ledger::alive_count() != 0 {
@@ -371,7 +452,7 @@ fn run_generic<S: SeedT>(c: &Case, out: &mut Outcome) {
         out.fail("double-drop", format!("{} tracked seed/value(s) were dropped twice", ledger::double_drops()));
     }
     // panicking seed destructor: the panic reaches exactly the caller whose initialiser succeeded
-    if c.seed == SeedKind::PanickingDrop && successes == 1 {
+    if c.seed.panicking() && successes == 1 {
         let mutated_panics: usize = c.threads.iter().flatten().filter(|a| matches!(a, Action::Panic { .. })).count();
         let total_panics: usize = reports.iter().map(|r| r.panics).sum();
         if total_panics > mutated_panics + 1 {
@@ -396,7 +477,7 @@ impl Prop for C17 {
     }
 
     fn rule(&self) -> String {
-        "cases = (seed kind: with Drop / without drop glue / with a panicking destructor; 1..8 threads each with a script of failing, panicking or succeeding \
+        "cases = (seed kind: with Drop / without drop glue / with a panicking destructor, each also as a large seed (520 B, 4 KiB, 1 KiB) carrying a checked padding; 1..8 threads each with a script of failing, panicking or succeeding \
          initialisers that may mutate the seed first; optional spin rendezvous before every attempt; optional getter thread calling get() while the first initialiser is parked inside the cell). \
          Oracle: at most one initialiser inside the cell at a time, exactly one success, one reference/value for all callers, the seed is found exactly as the previous initialisers left it, \
          get() is None until a success and never blocks (a blocked getter deadlocks the case -> blocked-state detector), drop ledger: seed alive until success, dropped once after, value alive until the cell is dropped, nothing left, nothing dropped twice. \
@@ -418,7 +499,7 @@ impl Prop for C17 {
     }
 
     fn strategy(&self, _tier: Tier) -> BoxedStrategy<Value> {
-        let seed = prop_oneof![3 => Just(SeedKind::Drop), 3 => Just(SeedKind::NoDrop), 1 => Just(SeedKind::PanickingDrop)];
+        let seed = prop_oneof![3 => Just(SeedKind::Drop), 3 => Just(SeedKind::NoDrop), 1 => Just(SeedKind::PanickingDrop), 1 => Just(SeedKind::BigDrop), 1 => Just(SeedKind::BigPanickingDrop), 1 => Just(SeedKind::BigNoDrop)];
         let threads = prop_oneof![
             3 => prop::collection::vec(prop::collection::vec(action_strategy(), 1..8), 1..2),
             4 => prop::collection::vec(prop::collection::vec(action_strategy(), 1..5), 2..8),
@@ -435,6 +516,9 @@ impl Prop for C17 {
             SeedKind::Drop => run_generic::<SeedD>(&c, &mut out),
             SeedKind::NoDrop => run_generic::<SeedN>(&c, &mut out),
             SeedKind::PanickingDrop => run_generic::<SeedP>(&c, &mut out),
+            SeedKind::BigDrop => run_generic::<SeedDB>(&c, &mut out),
+            SeedKind::BigPanickingDrop => run_generic::<SeedPB>(&c, &mut out),
+            SeedKind::BigNoDrop => run_generic::<SeedNB>(&c, &mut out),
         }
         let multi = c.threads.len() >= 2;
         let mutated_failure = c.threads.iter().any(|t| {
@@ -455,6 +539,6 @@ impl Prop for C17 {
     }
 
     fn required_labels(&self) -> Vec<&'static str> {
-        vec!["multi-thread", "mutating-failure-then-retry", "getter", "seed:PanickingDrop"]
+        vec!["multi-thread", "mutating-failure-then-retry", "getter", "seed:PanickingDrop", "seed:BigPanickingDrop", "seed:BigDrop", "seed:BigNoDrop"]
     }
 }
